@@ -26,79 +26,980 @@ def Arg.sigOK : Arg → Bool
 /-- every member of either tuple is (alpha-equivalent to) a member of the combined list -/
 theorem Thm.mem_addTuple (cur new : List Term) (h : Term) (hm : h ∈ cur ∨ h ∈ new) :
     ∃ h' ∈ Thm.addTuple cur new, Term.aeq h h' = true := by
-  sorry
+  unfold Thm.addTuple
+  split
+  · rename_i he
+    rcases hm with hm | hm
+    · simp [List.isEmpty_iff] at he; subst he; cases hm
+    · exact ⟨h, hm, Term.aeq_refl h⟩
+  · rcases hm with hm | hm
+    · exact ⟨h, List.mem_append_left _ hm, Term.aeq_refl h⟩
+    · by_cases hc : Thm.memAeq h cur = true
+      · unfold Thm.memAeq at hc
+        rw [List.any_eq_true] at hc
+        obtain ⟨h', hm', ha⟩ := hc
+        exact ⟨h', List.mem_append_left _ hm', ha⟩
+      · refine ⟨h, List.mem_append_right _ ?_, Term.aeq_refl h⟩
+        simp [List.mem_filter, hm, hc]
 
 /-- and the combined list has no other members -/
 theorem Thm.addTuple_sub (cur new : List Term) (h : Term) (hm : h ∈ Thm.addTuple cur new) :
     h ∈ cur ∨ h ∈ new := by
-  sorry
+  unfold Thm.addTuple at hm
+  split at hm
+  · exact Or.inr hm
+  · rcases List.mem_append.1 hm with hm | hm
+    · exact Or.inl hm
+    · exact Or.inr (List.mem_filter.1 hm).1
+
+theorem EnvOK.nil (M : Model) : EnvOK M [] [] := Forall2.nil
 
 /-- a boolean term evaluates to 0 or 1 -/
 theorem sem_bool_lt (M : Model) (ρ : Valuation) (hρ : Admissible M ρ) (t : Term)
     (h : Term.checkedGetType [] t = .ok Ty.bool) : sem M ρ [] [] t < 2 := by
-  sorry
+  have := sem_lt M ρ hρ [] [] (EnvOK.nil M) t Ty.bool h
+  rwa [Model.size_bool] at this
+
+theorem Thm.checkThmType_iff (th : Thm) : Thm.checkThmType th = true ↔
+    (∀ h ∈ th.hyps, Term.checkedGetType [] h = .ok Ty.bool) ∧
+      Term.checkedGetType [] th.prop = .ok Ty.bool := by
+  have key : ∀ t : Term, (match Term.checkedGetType [] t with
+      | .ok T => T == Ty.bool
+      | .error _ => false) = true ↔ Term.checkedGetType [] t = .ok Ty.bool := by
+    intro t
+    cases Term.checkedGetType [] t with
+    | ok T => simp
+    | error e => simp
+  unfold Thm.checkThmType
+  rw [List.all_eq_true]
+  constructor
+  · intro H
+    exact ⟨fun h hm => (key h).1 (H h (List.mem_append_left _ hm)),
+      (key _).1 (H _ (List.mem_append_right _ (List.mem_singleton.2 rfl)))⟩
+  · rintro ⟨H1, H2⟩ t ht
+    rcases List.mem_append.1 ht with ht | ht
+    · exact (key t).2 (H1 t ht)
+    · rw [List.mem_singleton.1 ht]; exact (key _).2 H2
+
+theorem Thm.sigOK_iff (th : Thm) : Thm.sigOK th = true ↔
+    (∀ h ∈ th.hyps, Holpy.sigOK h = true) ∧ Holpy.sigOK th.prop = true := by
+  unfold Thm.sigOK
+  rw [Bool.and_eq_true, List.all_eq_true]
+
+theorem Thm.mk'_one (p : Term) (hs : List Term) : Thm.mk' p [hs] = ⟨hs, p⟩ := by
+  simp [Thm.mk', Thm.addTuple]
+
+theorem Thm.mk'_two (p : Term) (h1 h2 : List Term) :
+    Thm.mk' p [h1, h2] = ⟨Thm.addTuple h1 h2, p⟩ := by
+  simp [Thm.mk', Thm.addTuple]
+
+
+/-! ### inversion of the logical constants -/
+
+theorem logicalKind_equals_inv (A : Ty) (r : Nat × Ty) (h : logicalKind "equals" A = some r) :
+    ∃ T, A = Ty.fn T (Ty.fn T Ty.bool) ∧ r = (0, T) := by
+  unfold logicalKind at h
+  split at h
+  · rename_i a a' _
+    split at h
+    · rename_i e; subst e
+      exact ⟨a, rfl, by simpa using h.symm⟩
+    · cases h
+  · rename_i e; simp at e
+  · rename_i e; simp at e
+  · cases h
+
+theorem logicalKind_implies_inv (A : Ty) (r : Nat × Ty) (h : logicalKind "implies" A = some r) :
+    A = Ty.fn Ty.bool (Ty.fn Ty.bool Ty.bool) := by
+  unfold logicalKind at h
+  split at h
+  · rename_i e; simp at e
+  · rfl
+  · rename_i e; simp at e
+  · cases h
+
+theorem logicalKind_all_inv (A : Ty) (r : Nat × Ty) (h : logicalKind "all" A = some r) :
+    ∃ T, A = Ty.fn (Ty.fn T Ty.bool) Ty.bool ∧ r = (2, T) := by
+  unfold logicalKind at h
+  split at h
+  · rename_i e; simp at e
+  · rename_i e; simp at e
+  · rename_i a _
+    exact ⟨a, rfl, by simpa using h.symm⟩
+  · cases h
+
+theorem logicalKind_equals (T : Ty) :
+    logicalKind "equals" (Ty.fn T (Ty.fn T Ty.bool)) = some (0, T) := by
+  simp [logicalKind, Ty.fn, Ty.bool]
+
+theorem logicalKind_implies :
+    logicalKind "implies" (Ty.fn Ty.bool (Ty.fn Ty.bool Ty.bool)) = some (1, Ty.bool) := by
+  simp [logicalKind, Ty.fn, Ty.bool]
+
+theorem logicalKind_all (T : Ty) :
+    logicalKind "all" (Ty.fn (Ty.fn T Ty.bool) Ty.bool) = some (2, T) := by
+  simp [logicalKind, Ty.fn, Ty.bool]
+
+theorem Term.destBinop_inv (name : String) (p a b : Term)
+    (h : Term.destBinop name p = some (a, b)) :
+    ∃ A, p = .comb (.comb (.const name A) a) b := by
+  unfold Term.destBinop at h
+  split at h
+  · rename_i n A a' b'
+    split at h
+    · rename_i e
+      have e' : n = name := by simpa using e
+      subst e'
+      cases h
+      exact ⟨A, rfl⟩
+    · cases h
+  · cases h
+
+theorem Term.destForall_inv (p a : Term) (h : Term.destForall p = some a) :
+    ∃ A, p = .comb (.const "all" A) a := by
+  unfold Term.destForall at h
+  split at h
+  · rename_i n A a'
+    split at h
+    · rename_i e
+      have e' : n = "all" := by simpa using e
+      subst e'
+      cases h
+      exact ⟨A, rfl⟩
+    · cases h
+  · cases h
+
+theorem Term.checked_comb_inv (bd : List Ty) (f a : Term) (S : Ty)
+    (h : Term.checkedGetType bd (.comb f a) = .ok S) :
+    ∃ ta rest, Term.checkedGetType bd f = .ok (.con "fun" (ta :: S :: rest)) ∧
+      Term.checkedGetType bd a = .ok ta := by
+  simp only [Term.checkedGetType, bind, Except.bind] at h
+  cases hf : Term.checkedGetType bd f with
+  | error e => rw [hf] at h; cases h
+  | ok tf =>
+    cases ha : Term.checkedGetType bd a with
+    | error e => rw [hf, ha] at h; cases h
+    | ok ta =>
+      rw [hf, ha] at h
+      simp only at h
+      split at h
+      · cases h
+      · split at h
+        · cases h
+        · rename_i d hd
+          split at h
+          · cases h
+          · rename_i hne
+            split at h
+            · rename_i r hr
+              cases h
+              have hd' : d = ta := by simpa using hne
+              subst hd'
+              unfold Ty.domain? at hd
+              split at hd
+              · rename_i a0 l0
+                cases hd
+                unfold Ty.range? at hr
+                split at hr
+                · rename_i e
+                  cases e
+                  cases hr
+                  exact ⟨_, _, rfl, rfl⟩
+                · cases hr
+              · cases hd
+            · cases h
+
+theorem Term.checked_comb (bd : List Ty) (f a : Term) (A B : Ty)
+    (hf : Term.checkedGetType bd f = .ok (Ty.fn A B)) (ha : Term.checkedGetType bd a = .ok A) :
+    Term.checkedGetType bd (.comb f a) = .ok B := by
+  simp [Term.checkedGetType, bind, Except.bind, hf, ha, Ty.fn, Ty.isFun, Ty.domain?, Ty.range?]
+
+
+/-- the equation `s = u` at type `T` -/
+def Term.eqAt (T : Ty) (s u : Term) : Term :=
+  .comb (.comb (.const "equals" (Ty.fn T (Ty.fn T Ty.bool))) s) u
+
+/-- `∀ p` at type `T` -/
+def Term.allAt (T : Ty) (p : Term) : Term :=
+  .comb (.const "all" (Ty.fn (Ty.fn T Ty.bool) Ty.bool)) p
+
+theorem Term.checked_eqAt_inv (bd : List Ty) (T S : Ty) (x y : Term)
+    (h : Term.checkedGetType bd (Term.eqAt T x y) = .ok S) :
+    Term.checkedGetType bd x = .ok T ∧ Term.checkedGetType bd y = .ok T ∧ S = Ty.bool := by
+  obtain ⟨ty, r1, h1, hy⟩ := Term.checked_comb_inv bd _ _ _ h
+  obtain ⟨tx, r2, h2, hx⟩ := Term.checked_comb_inv bd _ _ _ h1
+  simp only [Term.checkedGetType, Ty.fn, Ty.bool] at h2
+  injection h2 with h2
+  injection h2 with _ h2
+  injection h2 with e1 h2
+  injection h2 with e2 _
+  injection e2 with _ e2
+  injection e2 with e3 e2
+  injection e2 with e4 _
+  subst e1 e3
+  exact ⟨hx, hy, e4.symm⟩
+
+theorem Term.checked_mkImplies_inv (bd : List Ty) (S : Ty) (a b : Term)
+    (h : Term.checkedGetType bd (Term.mkImplies a b) = .ok S) :
+    Term.checkedGetType bd a = .ok Ty.bool ∧ Term.checkedGetType bd b = .ok Ty.bool ∧
+      S = Ty.bool := by
+  obtain ⟨ty, r1, h1, hy⟩ := Term.checked_comb_inv bd _ _ _ h
+  obtain ⟨tx, r2, h2, hx⟩ := Term.checked_comb_inv bd _ _ _ h1
+  simp only [Term.checkedGetType, Ty.fn, Ty.bool] at h2
+  injection h2 with h2
+  injection h2 with _ h2
+  injection h2 with e1 h2
+  injection h2 with e2 _
+  injection e2 with _ e2
+  injection e2 with e3 e2
+  injection e2 with e4 _
+  subst e1 e3
+  exact ⟨hx, hy, e4.symm⟩
+
+theorem Term.checked_allAt_inv (bd : List Ty) (T S : Ty) (p : Term)
+    (h : Term.checkedGetType bd (Term.allAt T p) = .ok S) :
+    Term.checkedGetType bd p = .ok (Ty.fn T Ty.bool) ∧ S = Ty.bool := by
+  obtain ⟨tp, r1, h1, hp⟩ := Term.checked_comb_inv bd _ _ _ h
+  simp only [Term.checkedGetType, Ty.fn, Ty.bool] at h1
+  injection h1 with h1
+  injection h1 with _ h1
+  injection h1 with e1 h1
+  injection h1 with e2 _
+  subst e1
+  exact ⟨hp, e2.symm⟩
+
+/-- a signature-correct well-typed equation is an equation at a definite type -/
+theorem eq_inv (p x y : Term) (S : Ty) (hd : Term.destEq p = some (x, y)) (hs : sigOK p = true)
+    (ht : Term.checkedGetType [] p = .ok S) :
+    ∃ T, p = Term.eqAt T x y ∧
+      Term.checkedGetType [] x = .ok T ∧ Term.checkedGetType [] y = .ok T ∧
+      sigOK x = true ∧ sigOK y = true := by
+  obtain ⟨A, rfl⟩ := Term.destBinop_inv _ _ _ _ hd
+  simp only [sigOK, Bool.and_eq_true] at hs
+  obtain ⟨⟨hA, hx⟩, hy⟩ := hs
+  simp only [BEq.rfl, Bool.true_or, if_true] at hA
+  obtain ⟨r, hr⟩ := Option.isSome_iff_exists.1 hA
+  obtain ⟨T, rfl, -⟩ := logicalKind_equals_inv A r hr
+  obtain ⟨h1, h2, -⟩ := Term.checked_eqAt_inv [] T S x y ht
+  exact ⟨T, rfl, h1, h2, hx, hy⟩
+
+theorem impl_inv (p a b : Term) (S : Ty) (hd : Term.destImplies p = some (a, b))
+    (hs : sigOK p = true) (ht : Term.checkedGetType [] p = .ok S) :
+    p = Term.mkImplies a b ∧
+      Term.checkedGetType [] a = .ok Ty.bool ∧ Term.checkedGetType [] b = .ok Ty.bool ∧
+      sigOK a = true ∧ sigOK b = true := by
+  obtain ⟨A, rfl⟩ := Term.destBinop_inv _ _ _ _ hd
+  simp only [sigOK, Bool.and_eq_true] at hs
+  obtain ⟨⟨hA, hx⟩, hy⟩ := hs
+  have hA' : (logicalKind "implies" A).isSome = true := by
+    revert hA; simp
+  obtain ⟨r, hr⟩ := Option.isSome_iff_exists.1 hA'
+  have := logicalKind_implies_inv A r hr
+  subst this
+  obtain ⟨h1, h2, -⟩ := Term.checked_mkImplies_inv [] S a b ht
+  exact ⟨rfl, h1, h2, hx, hy⟩
+
+theorem all_inv (p a : Term) (S : Ty) (hd : Term.destForall p = some a)
+    (hs : sigOK p = true) (ht : Term.checkedGetType [] p = .ok S) :
+    ∃ T, p = Term.allAt T a ∧ Term.checkedGetType [] a = .ok (Ty.fn T Ty.bool) ∧
+      sigOK a = true := by
+  obtain ⟨A, rfl⟩ := Term.destForall_inv _ _ hd
+  simp only [sigOK, Bool.and_eq_true] at hs
+  obtain ⟨hA, hx⟩ := hs
+  have hA' : (logicalKind "all" A).isSome = true := by
+    revert hA; simp
+  obtain ⟨r, hr⟩ := Option.isSome_iff_exists.1 hA'
+  obtain ⟨T, rfl, -⟩ := logicalKind_all_inv A r hr
+  obtain ⟨h1, -⟩ := Term.checked_allAt_inv [] T S a ht
+  exact ⟨T, rfl, h1, hx⟩
+
+theorem sigOK_eqAt (T : Ty) (x y : Term) (hx : sigOK x = true) (hy : sigOK y = true) :
+    sigOK (Term.eqAt T x y) = true := by
+  simp [Term.eqAt, sigOK, logicalKind_equals, hx, hy]
+
+theorem sigOK_mkImplies (x y : Term) (hx : sigOK x = true) (hy : sigOK y = true) :
+    sigOK (Term.mkImplies x y) = true := by
+  simp [Term.mkImplies, sigOK, logicalKind_implies, hx, hy]
+
+theorem sigOK_allAt (T : Ty) (x : Term) (hx : sigOK x = true) :
+    sigOK (Term.allAt T x) = true := by
+  simp [Term.allAt, sigOK, logicalKind_all, hx]
+
+theorem Term.mkEq_inv (s t e : Term) (h : Term.mkEq s t = .ok e) :
+    ∃ T, Term.getType [] s = .ok T ∧ e = Term.eqAt T s t := by
+  unfold Term.mkEq at h
+  simp only [bind, Except.bind] at h
+  cases hs : Term.getType [] s with
+  | error err => rw [hs] at h; cases h
+  | ok T =>
+    rw [hs] at h
+    cases h
+    exact ⟨T, rfl, rfl⟩
+
+theorem holds_eqAt (M : Model) (ρ : Valuation) (hρ : Admissible M ρ) (T : Ty) (x y : Term)
+    (hx : Term.checkedGetType [] x = .ok T) (hy : Term.checkedGetType [] y = .ok T) :
+    holds M ρ (Term.eqAt T x y) ↔ sem M ρ [] [] x = sem M ρ [] [] y := by
+  unfold holds Term.eqAt
+  rw [sem_equals M ρ [] [] T x y (sem_lt M ρ hρ [] [] (EnvOK.nil M) x T hx)
+    (sem_lt M ρ hρ [] [] (EnvOK.nil M) y T hy)]
+  split <;> simp_all
+
+theorem holds_mkImplies (M : Model) (ρ : Valuation) (hρ : Admissible M ρ) (a b : Term)
+    (ha : Term.checkedGetType [] a = .ok Ty.bool) (hb : Term.checkedGetType [] b = .ok Ty.bool) :
+    holds M ρ (Term.mkImplies a b) ↔ (holds M ρ a → holds M ρ b) := by
+  unfold holds
+  have h1 := sem_bool_lt M ρ hρ a ha
+  have h2 := sem_bool_lt M ρ hρ b hb
+  rw [sem_implies M ρ [] [] a b h1 h2]
+  split
+  · rename_i h; constructor
+    · intro h'; cases h'
+    · intro h'; have := h' h.1; omega
+  · rename_i h; constructor
+    · intro _ h'; omega
+    · intro _; rfl
+
+theorem holds_aeq (M : Model) (ρ : Valuation) (a b : Term) (h : Term.aeq a b = true) :
+    holds M ρ a ↔ holds M ρ b := by
+  unfold holds; rw [sem_aeq M ρ a b h]
+
+/-- frame for the rules with two premises whose hypotheses are merged -/
+theorem good_two (th1 th2 : Thm) (p : Term) (h1 : Good th1) (h2 : Good th2)
+    (hwt : Thm.checkThmType (Thm.mk' p [th1.hyps, th2.hyps]) = true)
+    (hsig : sigOK p = true)
+    (hval : ∀ M ρ, Admissible M ρ → holds M ρ th1.prop → holds M ρ th2.prop → holds M ρ p) :
+    Good (Thm.mk' p [th1.hyps, th2.hyps]) := by
+  refine ⟨hwt, ?_, ?_⟩
+  · rw [Thm.mk'_two, Thm.sigOK_iff]
+    refine ⟨fun h hm => ?_, hsig⟩
+    rcases Thm.addTuple_sub _ _ _ hm with hm | hm
+    · exact ((Thm.sigOK_iff _).1 h1.sig).1 h hm
+    · exact ((Thm.sigOK_iff _).1 h2.sig).1 h hm
+  · intro M ρ hρ hh
+    rw [Thm.mk'_two] at hh ⊢
+    apply hval M ρ hρ
+    · apply h1.valid M ρ hρ
+      intro h hm
+      obtain ⟨h', hm', ha⟩ := Thm.mem_addTuple th1.hyps th2.hyps h (Or.inl hm)
+      exact (holds_aeq M ρ h h' ha).2 (hh h' hm')
+    · apply h2.valid M ρ hρ
+      intro h hm
+      obtain ⟨h', hm', ha⟩ := Thm.mem_addTuple th1.hyps th2.hyps h (Or.inr hm)
+      exact (holds_aeq M ρ h h' ha).2 (hh h' hm')
+
+/-- frame for the rules with one premise that keep its hypotheses -/
+theorem good_one (th1 : Thm) (p : Term) (h1 : Good th1)
+    (hwt : Thm.checkThmType ⟨th1.hyps, p⟩ = true)
+    (hsig : sigOK p = true)
+    (hval : ∀ M ρ, Admissible M ρ → holds M ρ th1.prop → holds M ρ p) :
+    Good ⟨th1.hyps, p⟩ := by
+  refine ⟨hwt, ?_, ?_⟩
+  · rw [Thm.sigOK_iff]
+    exact ⟨((Thm.sigOK_iff _).1 h1.sig).1, hsig⟩
+  · intro M ρ hρ hh
+    exact hval M ρ hρ (h1.valid M ρ hρ hh)
+
+theorem Good.prop_bool {th : Thm} (h : Good th) :
+    Term.checkedGetType [] th.prop = .ok Ty.bool := ((Thm.checkThmType_iff th).1 h.wt).2
+
+theorem Good.prop_sig {th : Thm} (h : Good th) : sigOK th.prop = true :=
+  ((Thm.sigOK_iff th).1 h.sig).2
+
 
 /-! ### the rules -/
 
+theorem Thm.liftT_bind_ok {α β : Type} (x : Except TErr α) (f : α → Except RErr β) (b : β)
+    (h : (Thm.liftT x >>= f) = .ok b) : ∃ a, x = .ok a ∧ f a = .ok b := by
+  cases x with
+  | error e => cases h
+  | ok a => exact ⟨a, rfl, h⟩
+
+theorem Thm.catchTerm_bind_ok {α β : Type} (x : Except TErr α) (f : α → Except RErr β) (b : β)
+    (h : (Thm.catchTerm x >>= f) = .ok b) : ∃ a, x = .ok a ∧ f a = .ok b := by
+  cases x with
+  | error e => cases e <;> cases h
+  | ok a => exact ⟨a, rfl, h⟩
+
+theorem Term.mkEq_checked (s t e : Term) (T : Ty) (hs : Term.checkedGetType [] s = .ok T)
+    (h : Term.mkEq s t = .ok e) : e = Term.eqAt T s t := by
+  obtain ⟨T', hT', rfl⟩ := Term.mkEq_inv s t e h
+  rw [Term.getType_of_checked [] s T hs] at hT'
+  cases hT'
+  rfl
+
 theorem assume_sound (a : Term) (ha : sigOK a = true)
     (hwt : Thm.checkThmType (Thm.assume a) = true) : Good (Thm.assume a) := by
-  sorry
+  refine ⟨hwt, ?_, ?_⟩
+  · simp [Thm.sigOK, Thm.assume, ha]
+  · intro M ρ hρ hh
+    exact hh a (by simp [Thm.assume])
 
 theorem impliesIntr_sound (a : Term) (th : Thm) (ha : sigOK a = true) (hth : Good th)
     (hwt : Thm.checkThmType (Thm.impliesIntr a th) = true) : Good (Thm.impliesIntr a th) := by
-  sorry
+  have hw := (Thm.checkThmType_iff _).1 hwt
+  obtain ⟨ha', hp', -⟩ := Term.checked_mkImplies_inv [] _ a th.prop hw.2
+  refine ⟨hwt, ?_, ?_⟩
+  · rw [Thm.sigOK_iff]
+    exact ⟨fun h hm => ((Thm.sigOK_iff _).1 hth.sig).1 h (List.mem_filter.1 hm).1,
+      sigOK_mkImplies _ _ ha hth.prop_sig⟩
+  · intro M ρ hρ hh
+    show holds M ρ (Term.mkImplies a th.prop)
+    rw [holds_mkImplies M ρ hρ a th.prop ha' hp']
+    intro hA
+    apply hth.valid M ρ hρ
+    intro h hm
+    by_cases hc : Term.aeq h a = true
+    · exact (holds_aeq M ρ h a hc).2 hA
+    · exact hh h (List.mem_filter.2 ⟨hm, by simp [hc]⟩)
 
 theorem impliesElim_sound (th1 th2 th : Thm) (h1 : Good th1) (h2 : Good th2)
     (h : Thm.impliesElim th1 th2 = .ok th) (hwt : Thm.checkThmType th = true) : Good th := by
-  sorry
+  unfold Thm.impliesElim at h
+  split at h
+  · rename_i a b hd
+    split at h
+    · rename_i haeq
+      cases h
+      obtain ⟨hp, ha', hb', hsa, hsb⟩ := impl_inv _ a b _ hd h1.prop_sig h1.prop_bool
+      apply good_two th1 th2 b h1 h2 hwt hsb
+      intro M ρ hρ H1 H2
+      rw [hp, holds_mkImplies M ρ hρ a b ha' hb'] at H1
+      exact H1 ((holds_aeq M ρ a th2.prop haeq).2 H2)
+    · cases h
+  · cases h
 
 theorem reflexive_sound (x : Term) (th : Thm) (hx : sigOK x = true)
     (h : Thm.reflexive x = .ok th) (hwt : Thm.checkThmType th = true) : Good th := by
-  sorry
+  unfold Thm.reflexive at h
+  obtain ⟨e, he, h⟩ := Thm.liftT_bind_ok _ _ _ h
+  cases h
+  obtain ⟨T, hT, rfl⟩ := Term.mkEq_inv _ _ _ he
+  have hw := (Thm.checkThmType_iff _).1 hwt
+  obtain ⟨hx1, -, -⟩ := Term.checked_eqAt_inv [] T _ x x hw.2
+  refine ⟨hwt, ?_, ?_⟩
+  · rw [Thm.sigOK_iff]
+    exact ⟨fun h hm => (nomatch hm), sigOK_eqAt T x x hx hx⟩
+  · intro M ρ hρ hh
+    exact (holds_eqAt M ρ hρ T x x hx1 hx1).2 rfl
 
 theorem symmetric_sound (th1 th : Thm) (h1 : Good th1)
     (h : Thm.symmetric th1 = .ok th) (hwt : Thm.checkThmType th = true) : Good th := by
-  sorry
+  unfold Thm.symmetric at h
+  split at h
+  · rename_i x y hd
+    obtain ⟨e, he, h⟩ := Thm.liftT_bind_ok _ _ _ h
+    cases h
+    obtain ⟨T, hp, hx, hy, hsx, hsy⟩ := eq_inv _ x y _ hd h1.prop_sig h1.prop_bool
+    have := Term.mkEq_checked y x e T hy he
+    subst this
+    apply good_one th1 _ h1 hwt (sigOK_eqAt _ _ _ hsy hsx)
+    intro M ρ hρ H
+    rw [hp, holds_eqAt M ρ hρ T x y hx hy] at H
+    rw [holds_eqAt M ρ hρ T y x hy hx]
+    exact H.symm
+  · cases h
 
 theorem transitive_sound (th1 th2 th : Thm) (h1 : Good th1) (h2 : Good th2)
     (h : Thm.transitive th1 th2 = .ok th) (hwt : Thm.checkThmType th = true) : Good th := by
-  sorry
-
-theorem combination_sound (th1 th2 th : Thm) (h1 : Good th1) (h2 : Good th2)
-    (h : Thm.combination th1 th2 = .ok th) (hwt : Thm.checkThmType th = true) : Good th := by
-  sorry
+  unfold Thm.transitive at h
+  split at h
+  · rename_i x y1 y2 z hd1 hd2
+    split at h
+    · rename_i haeq
+      obtain ⟨e, he, h⟩ := Thm.liftT_bind_ok _ _ _ h
+      cases h
+      obtain ⟨T1, hp1, hx, hy1, hsx, hsy1⟩ := eq_inv _ x y1 _ hd1 h1.prop_sig h1.prop_bool
+      obtain ⟨T2, hp2, hy2, hz, hsy2, hsz⟩ := eq_inv _ y2 z _ hd2 h2.prop_sig h2.prop_bool
+      have hT : T1 = T2 := by
+        have := Term.checkedGetType_aeq y1 y2 haeq []
+        rw [hy1, hy2] at this
+        cases this
+        rfl
+      subst hT
+      have := Term.mkEq_checked x z e T1 hx he
+      subst this
+      apply good_two th1 th2 _ h1 h2 hwt (sigOK_eqAt _ _ _ hsx hsz)
+      intro M ρ hρ H1 H2
+      rw [hp1, holds_eqAt M ρ hρ T1 x y1 hx hy1] at H1
+      rw [hp2, holds_eqAt M ρ hρ T1 y2 z hy2 hz] at H2
+      rw [holds_eqAt M ρ hρ T1 x z hx hz, H1, sem_aeq M ρ y1 y2 haeq, H2]
+    · cases h
+  · cases h
 
 theorem equalIntr_sound (th1 th2 th : Thm) (h1 : Good th1) (h2 : Good th2)
     (h : Thm.equalIntr th1 th2 = .ok th) (hwt : Thm.checkThmType th = true) : Good th := by
-  sorry
+  unfold Thm.equalIntr at h
+  split at h
+  · rename_i a1 b1 b2 a2 hd1 hd2
+    split at h
+    · rename_i haeq
+      rw [Bool.and_eq_true] at haeq
+      obtain ⟨e, he, h⟩ := Thm.liftT_bind_ok _ _ _ h
+      cases h
+      obtain ⟨hp1, ha1, hb1, hsa1, hsb1⟩ := impl_inv _ a1 b1 _ hd1 h1.prop_sig h1.prop_bool
+      obtain ⟨hp2, hb2, ha2, hsb2, hsa2⟩ := impl_inv _ b2 a2 _ hd2 h2.prop_sig h2.prop_bool
+      have := Term.mkEq_checked a1 b1 e _ ha1 he
+      subst this
+      apply good_two th1 th2 _ h1 h2 hwt (sigOK_eqAt _ _ _ hsa1 hsb1)
+      intro M ρ hρ H1 H2
+      rw [hp1, holds_mkImplies M ρ hρ a1 b1 ha1 hb1] at H1
+      rw [hp2, holds_mkImplies M ρ hρ b2 a2 hb2 ha2] at H2
+      rw [holds_eqAt M ρ hρ _ a1 b1 ha1 hb1]
+      have l1 := sem_bool_lt M ρ hρ a1 ha1
+      have l2 := sem_bool_lt M ρ hρ b1 hb1
+      have e1 := sem_aeq M ρ a1 a2 haeq.1 [] []
+      have e2 := sem_aeq M ρ b1 b2 haeq.2 [] []
+      unfold holds at H1 H2
+      rw [← e1, ← e2] at H2
+      omega
+    · cases h
+  · cases h
 
 theorem equalElim_sound (th1 th2 th : Thm) (h1 : Good th1) (h2 : Good th2)
     (h : Thm.equalElim th1 th2 = .ok th) (hwt : Thm.checkThmType th = true) : Good th := by
-  sorry
+  unfold Thm.equalElim at h
+  split at h
+  · rename_i a b hd
+    split at h
+    · rename_i haeq
+      cases h
+      obtain ⟨T, hp, ha', hb', hsa, hsb⟩ := eq_inv _ a b _ hd h1.prop_sig h1.prop_bool
+      apply good_two th1 th2 b h1 h2 hwt hsb
+      intro M ρ hρ H1 H2
+      rw [hp, holds_eqAt M ρ hρ T a b ha' hb'] at H1
+      have H3 := (holds_aeq M ρ a th2.prop haeq).2 H2
+      unfold holds at H3 ⊢
+      rw [← H1]; exact H3
+    · cases h
+  · cases h
+
+theorem combination_sound (th1 th2 th : Thm) (h1 : Good th1) (h2 : Good th2)
+    (h : Thm.combination th1 th2 = .ok th) (hwt : Thm.checkThmType th = true) : Good th := by
+  unfold Thm.combination at h
+  split at h
+  · rename_i f g x y hd1 hd2
+    obtain ⟨tf, htf, h⟩ := Thm.liftT_bind_ok _ _ _ h
+    split at h
+    · split at h
+      · cases h
+      · rename_i d hd
+        obtain ⟨tx, htx, h⟩ := Thm.liftT_bind_ok _ _ _ h
+        split at h
+        · obtain ⟨e, he, h⟩ := Thm.liftT_bind_ok _ _ _ h
+          cases h
+          obtain ⟨T1, hp1, hf, hg, hsf, hsg⟩ := eq_inv _ f g _ hd1 h1.prop_sig h1.prop_bool
+          obtain ⟨T2, hp2, hx, hy, hsx, hsy⟩ := eq_inv _ x y _ hd2 h2.prop_sig h2.prop_bool
+          obtain ⟨T, hT, rfl⟩ := Term.mkEq_inv _ _ _ he
+          have hw := (Thm.checkThmType_iff _).1 hwt
+          rw [Thm.mk'_two] at hw
+          obtain ⟨hfx, hgy, -⟩ := Term.checked_eqAt_inv [] T _ _ _ hw.2
+          apply good_two th1 th2 _ h1 h2 hwt
+            (sigOK_eqAt _ _ _ (by simp [sigOK, hsf, hsx]) (by simp [sigOK, hsg, hsy]))
+          intro M ρ hρ H1 H2
+          rw [hp1, holds_eqAt M ρ hρ T1 f g hf hg] at H1
+          rw [hp2, holds_eqAt M ρ hρ T2 x y hx hy] at H2
+          rw [holds_eqAt M ρ hρ T _ _ hfx hgy]
+          simp only [sem]
+          rw [Term.getType_of_checked [] f T1 hf, Term.getType_of_checked [] g T1 hg, H1, H2]
+        · cases h
+    · cases h
+  · cases h
+
+theorem sigOK_incrAt (inc : Nat) (t : Term) : ∀ lev, sigOK (Term.incrAt inc lev t) = sigOK t := by
+  induction t with
+  | comb f a ihf iha => intro lev; simp [Term.incrAt, sigOK, ihf, iha]
+  | abs x T b ih => intro lev; simp [Term.incrAt, sigOK, ih]
+  | bound i => intro lev; simp only [Term.incrAt]; split <;> rfl
+  | svar n T => intro lev; rfl
+  | var n T => intro lev; rfl
+  | const n T => intro lev; rfl
+
+theorem sigOK_substBoundAt (u : Term) (hu : sigOK u = true) (s : Term) (hs : sigOK s = true) :
+    ∀ n, sigOK (Term.substBoundAt u n s) = true := by
+  induction s with
+  | comb f a ihf iha =>
+    intro n
+    simp only [sigOK, Bool.and_eq_true] at hs
+    simp [Term.substBoundAt, sigOK, ihf hs.1, iha hs.2]
+  | abs x T b ih =>
+    intro n
+    simp only [sigOK] at hs
+    simp [Term.substBoundAt, sigOK, ih hs]
+  | bound i =>
+    intro n
+    simp only [Term.substBoundAt]
+    split
+    · unfold Term.incrBoundvars; rw [sigOK_incrAt]; exact hu
+    · split <;> rfl
+  | svar n T => intro _; exact hs
+  | var n T => intro _; exact hs
+  | const n T => intro _; exact hs
+
+theorem Term.checked_abs_inv (bd : List Ty) (x : String) (T S : Ty) (b : Term)
+    (h : Term.checkedGetType bd (.abs x T b) = .ok S) :
+    ∃ tb, Term.checkedGetType (T :: bd) b = .ok tb ∧ S = Ty.fn T tb := by
+  simp only [Term.checkedGetType, bind, Except.bind] at h
+  cases hb : Term.checkedGetType (T :: bd) b with
+  | error e => rw [hb] at h; cases h
+  | ok tb => rw [hb] at h; cases h; exact ⟨tb, rfl, rfl⟩
+
+theorem Ty.fn_inj {a b c d : Ty} (h : Ty.fn a b = Ty.fn c d) : a = c ∧ b = d := by
+  unfold Ty.fn at h
+  injection h with _ h
+  injection h with h1 h
+  injection h with h2 _
+  exact ⟨h1, h2⟩
+
+/-- an argument that does not type-check cannot occur in a `subst_bound` result that does: the
+result does not depend on it -/
+theorem Term.substBoundAt_irrel (hi : List Ty) (u u' : Term)
+    (hu : ∀ T, Term.checkedGetType hi u ≠ .ok T) (b : Term) :
+    ∀ (lo : List Ty) (S : Ty),
+      Term.checkedGetType (lo ++ hi) (Term.substBoundAt u lo.length b) = .ok S →
+      Term.substBoundAt u lo.length b = Term.substBoundAt u' lo.length b := by
+  induction b with
+  | comb f a ihf iha =>
+    intro lo S h
+    simp only [Term.substBoundAt] at h ⊢
+    obtain ⟨ta, rest, h1, h2⟩ := Term.checked_comb_inv _ _ _ _ h
+    rw [ihf lo _ h1, iha lo _ h2]
+  | abs x T b ih =>
+    intro lo S h
+    simp only [Term.substBoundAt] at h ⊢
+    obtain ⟨tb, h1, -⟩ := Term.checked_abs_inv _ _ _ _ _ h
+    have := ih (T :: lo) tb h1
+    simp only [List.length_cons] at this
+    rw [this]
+  | bound i =>
+    intro lo S h
+    simp only [Term.substBoundAt] at h ⊢
+    split
+    · rename_i hc
+      rw [if_pos hc] at h
+      exfalso
+      have := Term.checkedGetType_incrAt [] lo hi u
+      simp only [List.nil_append, List.length_nil] at this
+      unfold Term.incrBoundvars at h
+      rw [this] at h
+      exact hu S h
+    · rfl
+  | svar n T => intro _ _ _; rfl
+  | var n T => intro _ _ _; rfl
+  | const n T => intro _ _ _; rfl
+
+theorem betaConv_sound (t : Term) (th : Thm) (ht : sigOK t = true)
+    (h : Thm.betaConv t = .ok th) (hwt : Thm.checkThmType th = true) : Good th := by
+  unfold Thm.betaConv at h
+  obtain ⟨t', ht', h⟩ := Thm.catchTerm_bind_ok _ _ _ h
+  obtain ⟨e, he, h⟩ := Thm.liftT_bind_ok _ _ _ h
+  cases h
+  unfold Term.betaConv at ht'
+  split at ht'
+  · rename_i x T b a _
+    simp only [Term.substBound] at ht'
+    cases ht'
+    obtain ⟨S, hS, rfl⟩ := Term.mkEq_inv _ _ _ he
+    have hw := (Thm.checkThmType_iff _).1 hwt
+    obtain ⟨hl, hr, -⟩ := Term.checked_eqAt_inv [] S _ _ _ hw.2
+    simp only [sigOK, Bool.and_eq_true] at ht
+    refine ⟨hwt, ?_, ?_⟩
+    · rw [Thm.sigOK_iff]
+      refine ⟨fun h hm => (nomatch hm), sigOK_eqAt S _ _ ?_ (sigOK_substBoundAt a ht.2 b ht.1 0)⟩
+      simp [sigOK, ht.1, ht.2]
+    · intro M ρ hρ hh
+      exact (holds_eqAt M ρ hρ S _ _ hl hr).2 (sem_beta M ρ hρ [] [] (EnvOK.nil M) x T S b a hl).symm
+  · cases ht'
+
+theorem forallElim_sound (s : Term) (th1 th : Thm) (hs : sigOK s = true) (h1 : Good th1)
+    (h : Thm.forallElim s th1 = .ok th) (hwt : Thm.checkThmType th = true) : Good th := by
+  unfold Thm.forallElim at h
+  split at h
+  · rename_i x T b hd
+    obtain ⟨ts, hts, h⟩ := Thm.liftT_bind_ok _ _ _ h
+    split at h
+    · cases h
+    · rename_i hne
+      obtain ⟨r, hr, h⟩ := Thm.liftT_bind_ok _ _ _ h
+      cases h
+      simp only [Term.substBound] at hr
+      cases hr
+      have hT : T = ts := by simpa using hne
+      subst hT
+      obtain ⟨T', hp, habs, hsabs⟩ := all_inv _ _ _ hd h1.prop_sig h1.prop_bool
+      obtain ⟨tb, hb, hfn⟩ := Term.checked_abs_inv _ _ _ _ _ habs
+      obtain ⟨rfl, rfl⟩ := Ty.fn_inj hfn
+      have hw := (Thm.checkThmType_iff _).1 hwt
+      simp only [sigOK] at hsabs
+      apply good_one th1 _ h1 hwt (sigOK_substBoundAt s hs b hsabs 0)
+      intro M ρ hρ H
+      rw [hp] at H
+      unfold Term.allAt at H
+      rw [holds_all_abs M ρ hρ _ x T' b hb (logicalKind_all T')] at H
+      unfold holds
+      by_cases hc : ∃ T0, Term.checkedGetType [] s = .ok T0
+      · obtain ⟨T0, hT0⟩ := hc
+        have e := Term.getType_of_checked [] s T0 hT0
+        rw [hts] at e
+        cases e
+        have := sem_substBoundAt M ρ [] [] [] [] rfl T' s b hts
+        simp only [List.nil_append, List.length_nil] at this
+        rw [this]
+        exact H _ (sem_lt M ρ hρ [] [] (EnvOK.nil M) s T' hT0)
+      · have hc' : ∀ T0, Term.checkedGetType [] s ≠ .ok T0 := fun T0 h0 => hc ⟨T0, h0⟩
+        have e := Term.substBoundAt_irrel [] s (.var "x" T') hc' b [] Ty.bool hw.2
+        simp only [List.length_nil] at e
+        rw [e]
+        have := sem_substBoundAt M ρ [] [] [] [] rfl T' (.var "x" T') b rfl
+        simp only [List.nil_append, List.length_nil] at this
+        rw [this]
+        exact H _ (hρ 1 "x" T')
+  · cases h
+  · cases h
+
+theorem sigOK_abstractOverAt (x t : Term) :
+    ∀ (n : Nat) (t' : Term), Term.abstractOverAt x n t = .ok t' → sigOK t = true →
+      sigOK t' = true := by
+  induction t with
+  | svar m S =>
+    intro n t' h _
+    simp only [Term.abstractOverAt] at h
+    (repeat' split at h) <;> first | (cases h; rfl) | cases h
+  | var m S =>
+    intro n t' h _
+    simp only [Term.abstractOverAt] at h
+    (repeat' split at h) <;> first | (cases h; rfl) | cases h
+  | const m S =>
+    intro n t' h hs
+    simp only [Term.abstractOverAt] at h
+    cases h; exact hs
+  | bound i =>
+    intro n t' h hs
+    simp only [Term.abstractOverAt] at h
+    cases h; exact hs
+  | comb f a ihf iha =>
+    intro n t' h hs
+    simp only [Term.abstractOverAt, bind, Except.bind] at h
+    simp only [sigOK, Bool.and_eq_true] at hs
+    cases hf : Term.abstractOverAt x n f with
+    | error e => rw [hf] at h; cases h
+    | ok f' =>
+      cases ha : Term.abstractOverAt x n a with
+      | error e => rw [hf, ha] at h; cases h
+      | ok a' =>
+        rw [hf, ha] at h
+        cases h
+        simp [sigOK, ihf n f' hf hs.1, iha n a' ha hs.2]
+  | abs y T b ih =>
+    intro n t' h hs
+    simp only [Term.abstractOverAt, bind, Except.bind] at h
+    simp only [sigOK] at hs
+    cases hb : Term.abstractOverAt x (n + 1) b with
+    | error e => rw [hb] at h; cases h
+    | ok b' =>
+      rw [hb] at h
+      cases h
+      simp [sigOK, ih (n + 1) b' hb hs]
+
+theorem varKey_of_isVarLike (x : Term) (h : Term.isVarLike x = true) :
+    ∃ k n, varKey x = some (k, n, Term.typeOfAtom x) := by
+  cases x <;> simp [Term.isVarLike] at h
+  · exact ⟨0, _, rfl⟩
+  · exact ⟨1, _, rfl⟩
+
+theorem Term.mkLambda_inv (x t l : Term) (h : Term.mkLambda x t = .ok l) :
+    Term.isVarLike x = true ∧ ∃ b, Term.abstractOverAt x 0 t = .ok b ∧
+      l = .abs (Term.nameOf x) (Term.typeOfAtom x) b := by
+  unfold Term.mkLambda at h
+  split at h
+  · rename_i hv
+    refine ⟨hv, ?_⟩
+    simp only [bind, Except.bind, Term.abstractOver, hv, if_true] at h
+    cases hb : Term.abstractOverAt x 0 t with
+    | error e => rw [hb] at h; cases h
+    | ok b => rw [hb] at h; cases h; exact ⟨b, rfl, rfl⟩
+  · cases h
+
+theorem sigOK_mkLambda (x t l : Term) (h : Term.mkLambda x t = .ok l) (ht : sigOK t = true) :
+    sigOK l = true := by
+  obtain ⟨-, b, hb, rfl⟩ := Term.mkLambda_inv x t l h
+  simp only [sigOK]
+  exact sigOK_abstractOverAt x t 0 b hb ht
+
+theorem Term.mkForall_inv (x t q : Term) (h : Term.mkForall x t = .ok q) :
+    Term.isVarLike x = true ∧ ∃ l, Term.mkLambda x t = .ok l ∧
+      q = Term.allAt (Term.typeOfAtom x) l := by
+  unfold Term.mkForall at h
+  split at h
+  · rename_i hv
+    refine ⟨hv, ?_⟩
+    simp only [bind, Except.bind] at h
+    cases hl : Term.mkLambda x t with
+    | error e => rw [hl] at h; cases h
+    | ok l => rw [hl] at h; cases h; exact ⟨l, rfl, rfl⟩
+  · cases h
+
+/-- hypotheses in which the variable does not occur still hold after changing its value -/
+theorem hyps_update (M : Model) (ρ : Valuation) (x : Term) (k : Nat) (n : String) (T : Ty)
+    (hk : varKey x = some (k, n, T)) (hyps : List Term)
+    (hocc : ¬ hyps.any (Term.occursVar x) = true) (v : Nat)
+    (hh : ∀ h ∈ hyps, holds M ρ h) : ∀ h ∈ hyps, holds M (ρ.update k n T v) h := by
+  intro h hm
+  have hno : Term.occursVar x h = false := by
+    cases hc : Term.occursVar x h with
+    | false => rfl
+    | true => exact absurd (List.any_eq_true.2 ⟨h, hm, hc⟩) hocc
+  unfold holds
+  rw [sem_update_of_not_occurs M ρ x k n T hk h hno v [] []]
+  exact hh h hm
+
+theorem forallIntr_sound (x : Term) (th1 th : Thm) (h1 : Good th1)
+    (h : Thm.forallIntr x th1 = .ok th) (hwt : Thm.checkThmType th = true) : Good th := by
+  unfold Thm.forallIntr at h
+  split at h
+  · cases h
+  · rename_i hocc
+    split at h
+    · cases h
+    · obtain ⟨q, hq, h⟩ := Thm.liftT_bind_ok _ _ _ h
+      cases h
+      obtain ⟨hvl, l, hl, rfl⟩ := Term.mkForall_inv _ _ _ hq
+      obtain ⟨k, n, hk⟩ := varKey_of_isVarLike x hvl
+      refine ⟨hwt, ?_, ?_⟩
+      · rw [Thm.sigOK_iff]
+        exact ⟨((Thm.sigOK_iff _).1 h1.sig).1, sigOK_allAt _ _ (sigOK_mkLambda x _ l hl h1.prop_sig)⟩
+      · intro M ρ hρ hh
+        show holds M ρ (Term.allAt (Term.typeOfAtom x) l)
+        rw [holds_mkForall M ρ hρ x k n _ hk th1.prop _ h1.prop_bool hq]
+        intro v hv
+        exact h1.valid M _ (hρ.update k n _ v hv) (hyps_update M ρ x k n _ hk _ hocc v hh)
+
+theorem abstraction_sound (x : Term) (th1 th : Thm) (h1 : Good th1)
+    (h : Thm.abstraction x th1 = .ok th) (hwt : Thm.checkThmType th = true) : Good th := by
+  unfold Thm.abstraction at h
+  split at h
+  · cases h
+  · rename_i hocc
+    split at h
+    · rename_i t1 t2 hd
+      obtain ⟨l1, hl1, h⟩ := Thm.catchTerm_bind_ok _ _ _ h
+      obtain ⟨l2, hl2, h⟩ := Thm.catchTerm_bind_ok _ _ _ h
+      obtain ⟨e, he, h⟩ := Thm.liftT_bind_ok _ _ _ h
+      cases h
+      obtain ⟨S, hp, ht1, ht2, hs1, hs2⟩ := eq_inv _ t1 t2 _ hd h1.prop_sig h1.prop_bool
+      have hvl := (Term.mkLambda_inv _ _ _ hl1).1
+      obtain ⟨k, n, hk⟩ := varKey_of_isVarLike x hvl
+      have c1 := checked_mkLambda x k n _ hk t1 l1 S ht1 hl1
+      have c2 := checked_mkLambda x k n _ hk t2 l2 S ht2 hl2
+      have := Term.mkEq_checked l1 l2 e _ c1 he
+      subst this
+      refine ⟨hwt, ?_, ?_⟩
+      · rw [Thm.sigOK_iff]
+        exact ⟨((Thm.sigOK_iff _).1 h1.sig).1,
+          sigOK_eqAt _ _ _ (sigOK_mkLambda x _ l1 hl1 hs1) (sigOK_mkLambda x _ l2 hl2 hs2)⟩
+      · intro M ρ hρ hh
+        show holds M ρ (Term.eqAt _ l1 l2)
+        rw [holds_eqAt M ρ hρ _ l1 l2 c1 c2]
+        have b1 := sem_lt M ρ hρ [] [] (EnvOK.nil M) l1 _ c1
+        have b2 := sem_lt M ρ hρ [] [] (EnvOK.nil M) l2 _ c2
+        rw [Model.size_fn] at b1 b2
+        apply code_ext _ _ _ _ b1 b2
+        intro v hv
+        rw [appCode_sem_mkLambda M ρ hρ x k n _ hk t1 l1 S ht1 hl1 v hv,
+          appCode_sem_mkLambda M ρ hρ x k n _ hk t2 l2 S ht2 hl2 v hv]
+        have hv' := h1.valid M _ (hρ.update k n _ v hv) (hyps_update M ρ x k n _ hk _ hocc v hh)
+        rw [hp, holds_eqAt M _ (hρ.update k n _ v hv) S t1 t2 ht1 ht2] at hv'
+        exact hv'
+    · cases h
+
+theorem Forall2.exists_right {α β : Type} {R : α → β → Prop} {l1 : List α} {l2 : List β}
+    (h : Forall2 R l1 l2) : ∀ a ∈ l1, ∃ b ∈ l2, R a b := by
+  induction h with
+  | nil => intro a ha; cases ha
+  | cons hr _ ih =>
+    intro a ha
+    cases ha with
+    | head => exact ⟨_, List.mem_cons_self, hr⟩
+    | tail _ ha' =>
+      obtain ⟨b, hb, hab⟩ := ih a ha'
+      exact ⟨b, List.mem_cons_of_mem _ hb, hab⟩
+
+theorem Forall2.exists_left {α β : Type} {R : α → β → Prop} {l1 : List α} {l2 : List β}
+    (h : Forall2 R l1 l2) : ∀ b ∈ l2, ∃ a ∈ l1, R a b := by
+  induction h with
+  | nil => intro a ha; cases ha
+  | cons hr _ ih =>
+    intro b hb
+    cases hb with
+    | head => exact ⟨_, List.mem_cons_self, hr⟩
+    | tail _ hb' =>
+      obtain ⟨a, ha, hab⟩ := ih b hb'
+      exact ⟨a, List.mem_cons_of_mem _ ha, hab⟩
+
+theorem holds_substType (M : Model) (ρ : Valuation) (σ : Ty.TyInst) (t : Term) (T : Ty)
+    (ht : Term.checkedGetType [] t = .ok T) :
+    holds M ρ (Term.substType σ t) ↔ holds (M.pull σ) (ρ.pull M σ) t := by
+  unfold holds
+  have := sem_substType M ρ σ [] [] t T ht
+  simp only [List.map_nil] at this
+  rw [this]
 
 theorem substType_sound (σ : Ty.TyInst) (th : Thm) (hth : Good th)
     (hwt : Thm.checkThmType (Thm.substType σ th) = true) : Good (Thm.substType σ th) := by
-  sorry
+  have hw := (Thm.checkThmType_iff th).1 hth.wt
+  refine ⟨hwt, ?_, ?_⟩
+  · unfold Thm.substType
+    rw [Thm.mk'_one, Thm.sigOK_iff]
+    refine ⟨?_, sigOK_substType σ _ hth.prop_sig⟩
+    intro h hm
+    obtain ⟨h0, hm0, rfl⟩ := List.mem_map.1 hm
+    exact sigOK_substType σ h0 (((Thm.sigOK_iff _).1 hth.sig).1 h0 hm0)
+  · intro M ρ hρ hh
+    unfold Thm.substType at hh ⊢
+    rw [Thm.mk'_one] at hh ⊢
+    show holds M ρ (Term.substType σ th.prop)
+    rw [holds_substType M ρ σ _ _ hw.2]
+    apply hth.valid (M.pull σ) _ (hρ.pull σ)
+    intro h hm
+    rw [← holds_substType M ρ σ h _ (hw.1 h hm)]
+    exact hh _ (List.mem_map_of_mem hm)
 
 theorem substitution_sound (inst : Term.Inst) (th1 th : Thm) (h1 : Good th1)
     (hi : Arg.sigOK (.inst inst) = true)
     (h : Thm.substitution inst th1 = .ok th) (hwt : Thm.checkThmType th = true) : Good th := by
-  sorry
-
-theorem betaConv_sound (t : Term) (th : Thm) (ht : sigOK t = true)
-    (h : Thm.betaConv t = .ok th) (hwt : Thm.checkThmType th = true) : Good th := by
-  sorry
-
-theorem abstraction_sound (x : Term) (th1 th : Thm) (h1 : Good th1)
-    (h : Thm.abstraction x th1 = .ok th) (hwt : Thm.checkThmType th = true) : Good th := by
-  sorry
-
-theorem forallIntr_sound (x : Term) (th1 th : Thm) (h1 : Good th1)
-    (h : Thm.forallIntr x th1 = .ok th) (hwt : Thm.checkThmType th = true) : Good th := by
-  sorry
-
-theorem forallElim_sound (s : Term) (th1 th : Thm) (hs : sigOK s = true) (h1 : Good th1)
-    (h : Thm.forallElim s th1 = .ok th) (hwt : Thm.checkThmType th = true) : Good th := by
-  sorry
+  obtain ⟨σ, hs, p, rfl, hF, hp, hty⟩ := Thm.substitution_spec inst th1 th h
+  rw [Thm.mk'_one] at hwt ⊢
+  have hw1 := (Thm.checkThmType_iff th1).1 h1.wt
+  simp only [Arg.sigOK, Bool.and_eq_true, List.all_eq_true] at hi
+  have key : ∀ t0 t1, t0 ∈ th1.hyps ++ [th1.prop] → Term.checkedGetType [] t0 = .ok Ty.bool →
+      Term.substRec { inst with tyinst := σ } (Term.substType σ t0) = .ok t1 → ∀ M ρ,
+      (holds M ρ t1 ↔
+        holds (M.pull σ) ((instVal M ρ { inst with tyinst := σ }).pull M σ) t0) := by
+    intro t0 t1 hm ht0 hr M ρ
+    have hty' : ∀ n T, (n, T) ∈ Term.getSvars (Term.substType σ t0) → ∀ s,
+        ({ inst with tyinst := σ } : Term.Inst).svars.lookup n = some s →
+        Term.checkedGetType [] s = .ok T := by
+      intro n T hmem s hs
+      obtain ⟨T0, hm0, rfl⟩ := Term.mem_getSvars_substType σ t0 n T hmem
+      exact hty t0 hm n T0 hm0 s hs
+    have e1 := (sem_substRec M ρ _ _ t1 hr hty' [] []).2
+    rw [← holds_substType M _ σ t0 _ ht0]
+    unfold holds
+    rw [e1]
+  refine ⟨hwt, ?_, ?_⟩
+  · rw [Thm.sigOK_iff]
+    constructor
+    · intro h' hm'
+      obtain ⟨h0, hm0, hr⟩ := hF.exists_left h' hm'
+      exact sigOK_substRec _ _ h' hr
+        (sigOK_substType σ h0 (((Thm.sigOK_iff _).1 h1.sig).1 h0 hm0)) hi.1 hi.2
+    · exact sigOK_substRec _ _ p hp (sigOK_substType σ _ h1.prop_sig) hi.1 hi.2
+  · intro M ρ hρ hh
+    show holds M ρ p
+    rw [key th1.prop p (List.mem_append_right _ (List.mem_singleton.2 rfl)) hw1.2 hp M ρ]
+    apply h1.valid (M.pull σ) _ ((hρ.instVal _).pull σ)
+    intro h0 hm0
+    obtain ⟨h', hm', hr⟩ := hF.exists_right h0 hm0
+    rw [← key h0 h' (List.mem_append_left _ hm0) (hw1.1 h0 hm0) hr M ρ]
+    exact hh h' hm'
 
 end Holpy
